@@ -162,6 +162,9 @@ func (c *otApplyContext) applyGSUB(table tables.GSUBLookup) bool {
 		c.applySubsSequence(data.Sequences[index].SubstituteGlyphIDs)
 
 	case tables.AlternateSubs:
+		if index >= len(data.AlternateSets) { // index is not sanitized in tables.Parse
+			return false
+		}
 		alternates := data.AlternateSets[index].AlternateGlyphIDs
 		return c.applySubsAlternate(alternates)
 
